@@ -83,7 +83,12 @@ func renderObsProcs(sc *Scenario, meta *c20Meta) {
 				}
 				s = append(s, fmt.Sprintf("ECHO '@U %d';", i), q)
 			case "selfu":
-				s = append(s, fmt.Sprintf("ECHO '@Q %d';", i), fmt.Sprintf("SELECT id, n FROM %s FOR UPDATE;", t))
+				if op.Form == 1 {
+					// the table is the joined (second) table of the FOR UPDATE query
+					s = append(s, fmt.Sprintf("ECHO '@Q %d';", i), fmt.Sprintf("SELECT x.id, x.n FROM one y JOIN %s x ON y.k = 1 FOR UPDATE;", t))
+				} else {
+					s = append(s, fmt.Sprintf("ECHO '@Q %d';", i), fmt.Sprintf("SELECT id, n FROM %s FOR UPDATE;", t))
+				}
 			case "ins":
 				tt := t
 				if op.Form == 1 {
@@ -132,6 +137,7 @@ func (c20) Gen(seed uint64, tier string) *Scenario {
 		meta.Rows = append(meta.Rows, rows)
 		sc.Files = append(sc.Files, FileSpec{Name: tableName(i) + ".csv", Content: counterTable(rows)})
 	}
+	sc.Files = append(sc.Files, FileSpec{Name: "one.csv", Content: "k\n1\n"}) // first table of the join form of FOR UPDATE
 	nobs := r.Pick(1, 1, 2)
 	nwr := r.Range(1, 2)
 	uniq := 1000
@@ -151,7 +157,7 @@ func (c20) Gen(seed uint64, tier string) *Scenario {
 						ops = append(ops, ObsOp{Kind: "noop", Table: tb, Form: r.Intn(2)})
 					}
 				case 4:
-					ops = append(ops, ObsOp{Kind: "selfu", Table: tb})
+					ops = append(ops, ObsOp{Kind: "selfu", Table: tb, Form: r.Pick(0, 0, 1)})
 				case 5:
 					uniq++
 					ops = append(ops, ObsOp{Kind: "ins", Table: tb, Key: uniq, Form: r.Pick(0, 0, 1)})
